@@ -16,6 +16,7 @@ SUITE_MODULES = {
     'fs': 'run_fs',
     'sched': 'run_sched',
     'session': 'run_session',
+    'sites': 'run_sites',
 }
 
 
